@@ -276,8 +276,10 @@ check(
           "for (c): at least one row in a zero-copy column."),
     quick=[unit("codec", "^TestC14", checks=4000, timeout=900),
            unit("codec", "^TestC14", variant="purego", checks=2000, timeout=900)],
-    thorough=[unit("codec", "^TestC14", checks=50000, timeout=6000, shards=12),
-              unit("codec", "^TestC14", variant="purego", checks=50000, timeout=6000, shards=4)],
+    thorough=[unit("codec", "^TestC14(ExhaustiveShort|RandomLong|ColumnPaths)", checks=50000, timeout=6000, shards=10),
+              unit("codec", "^TestC14(ExhaustiveShort|RandomLong|ColumnPaths)", variant="purego", checks=50000, timeout=6000, shards=3),
+              unit("codec", "^TestC14LargeDictionaryPaths", checks=4000, timeout=6000, shards=2),
+              unit("codec", "^TestC14LargeDictionaryPaths", variant="purego", checks=4000, timeout=6000, shards=1)],
     manifest=dict(
         text="Model-based testing of the writer against a byte-list model: exhaustive over all short operation sequences, "
              "random long ones, plus the metamorphic path equivalence vectored == buffered for columns and blocks.",
